@@ -75,6 +75,7 @@ func (c01) pipe(f []string) string {
 		return "bad-op"
 	}
 	rig := c01Rig()
+	defer hx.DropScopes(rig.ScopeName())
 	// request bytes per connection
 	build := func(conn int) ([]byte, int, bool) {
 		var b bytes.Buffer
